@@ -53,6 +53,7 @@ type Unit struct {
 	Modifies    []string // raw items; nil = inferred; "nothing"
 	HasMod      bool
 	ModInferred bool     // modifies = the inferred write set of the body, plus the listed items
+	Lemmas      []Clause // closed formulas proved on their own (class "lemma"), e.g. injectivity of a cache key
 	Preserves   []string // type names: no field of any pre-existing object of these struct types changes
 	Ats         []AtSpec
 	MemoClass   string     // memoize CLASS: value class of the build-cache keys made in this function (C13)
@@ -118,7 +119,7 @@ func NewContracts() *Contracts {
 	return &Contracts{Units: map[string]*Unit{}, Specs: map[string]*SpecFunc{}, Ghosts: map[string]*GhostVar{}, GhostFields: map[string]map[string]*GhostField{}}
 }
 
-var clauseKeywords = map[string]bool{"returns": true, "after": true, "preserves": true, "step": true, "exits": true, "at": true, "memoize": true, "pins": true, "visits": true, "requires": true, "ensures": true, "modifies": true, "invariant": true,
+var clauseKeywords = map[string]bool{"lemma": true, "returns": true, "after": true, "preserves": true, "step": true, "exits": true, "at": true, "memoize": true, "pins": true, "visits": true, "requires": true, "ensures": true, "modifies": true, "invariant": true,
 	"decreases": true, "loop": true, "func": true, "spec": true, "define": true, "axiom": true, "ghost": true,
 	"opts": true, "pure": true, "end": true, "trusted": true}
 
@@ -254,6 +255,15 @@ func (c *Contracts) ParseFile(path, pkgPath string) error {
 			} else {
 				cur.Ensures = append(cur.Ensures, cl)
 			}
+		case "lemma":
+			if cur == nil {
+				return fmt.Errorf("%s:%d: lemma outside func", path, r.line)
+			}
+			cl, err := mkClause(r)
+			if err != nil {
+				return err
+			}
+			cur.Lemmas = append(cur.Lemmas, cl)
 		case "preserves":
 			if cur == nil {
 				return fmt.Errorf("%s:%d: preserves outside func", path, r.line)
